@@ -10,7 +10,7 @@
                     when the strict one returns f *)
 From Coq Require Import String List Lia Bool.
 From ACH Require Import Arith.
-From ACH Require Import ReaderValid LayoutFacts FileStructFacts DispatchFacts.
+From ACH Require Import ReaderValid LayoutFacts FileStructFacts FramingFacts DispatchFacts DispatchFixed DispatchBytes.
 Import ListNotations.
 Local Open Scope string_scope.
 Local Open Scope nat_scope.
@@ -829,3 +829,40 @@ Proof.
 Qed.
 
 End InstFacts.
+
+(* ------------------------------------------------------------------ *)
+(* 7. bytes: every physical layout of the written records                *)
+
+Section InstText.
+Variable T : list layout.
+Hypothesis T_ok : forallb layout_ok T = true.
+Variable RS : list (string * rules).
+Variable AT : tables.
+
+Theorem valid_text_roundtrip f k j0 recs :
+  all_file (rec_fitsb T) f = true -> dispatchb T f = true -> all_file (rec_no_nl T) f = true ->
+  tree_validb RS AT (parsed_file T f) = true ->
+  map fst recs = write_file T f ++ repeat nines k ->
+  Forall junk_ok j0 -> Forall (fun p => Forall junk_ok (snd p)) recs ->
+  read_text_valid T RS AT (junk_bytes j0 ++ text_of recs) = Some (parsed_file T f, false).
+Proof.
+  intros Hfit Hd Hnl Hv Hrecs Hj0 Hj.
+  pose proof (valid_roundtrip_parsed T T_ok RS AT f k Hfit Hd Hv) as Hread.
+  pose proof (read_file_typed T _ _ (valid_reader_refines T RS AT _ _ Hread)) as Htyped.
+  assert (Hwf : forallb wf_utf8 (write_file T f ++ repeat nines k) = true).
+  { rewrite forallb_app. apply andb_true_intro. split.
+    - apply all_file_lines. apply (all_file_impl (rec_fitsb T)); [exact (fits_wf T T_ok)|exact Hfit].
+    - apply forallb_forall. intros x Hx. apply repeat_spec in Hx. subst. apply nines_line_ok. }
+  assert (Hno : forallb no_nl (write_file T f ++ repeat nines k) = true).
+  { rewrite forallb_app. apply andb_true_intro. split.
+    - now apply all_file_lines.
+    - apply forallb_forall. intros x Hx. apply repeat_spec in Hx. subst. apply nines_line_ok. }
+  unfold read_text_valid. rewrite read_lines_text_of; [|exact Hj0|].
+  - rewrite <- (map_map fst NLine), Hrecs, norm_lines_NLine. exact Hread.
+  - apply Forall_forall. intros p Hp. split; [|rewrite Forall_forall in Hj; now apply Hj].
+    assert (Hin : In (fst p) (write_file T f ++ repeat nines k)) by (rewrite <- Hrecs; now apply in_map).
+    rewrite forallb_forall in Hwf, Hno. rewrite Forall_forall in Htyped. specialize (Htyped _ Hin).
+    unfold line_ok. repeat split; auto; [apply Htyped|now apply typed_not_blank].
+Qed.
+
+End InstText.
